@@ -53,6 +53,20 @@ pub mod verif {
         TRACE.with(|t| t.borrow_mut().take().unwrap_or_default())
     }
 
+    thread_local! {
+        static PARTIAL_CALLS: std::cell::Cell<usize> = const { std::cell::Cell::new(0) };
+    }
+
+    /// Number of derivative computations of (sub-)expressions started by the current thread so far.
+    pub fn partial_calls() -> usize {
+        PARTIAL_CALLS.with(|c| c.get())
+    }
+
+    #[cfg(feature = "partial")]
+    pub(crate) fn count_partial_call() {
+        PARTIAL_CALLS.with(|c| c.set(c.get() + 1));
+    }
+
     pub(crate) fn record_step(op_idx: usize, left_idx: usize, right_idx: usize, n_numbers: usize) {
         TRACE.with(|t| {
             if let Some(trace) = t.borrow_mut().as_mut() {
